@@ -337,7 +337,109 @@ def clause_d(repo, chk):
         raise AnalysisError("only %d idx bindings found in BaseCustomModel" % n)
 
 
+def clause_e(repo, chk):
+    """mixture likelihoods: each component is divided by the integral of the very function it evaluates"""
+    chk.rule("E-norm", "in every cfit-family nll_grad_batch the per-event function of a mixture component in prob() (what multiplies 1/v_int_X) is the function that was integrated over the phase-space sample to obtain int_X")
+    n = 0
+    m = repo.mod("tf_pwa/model/cfit.py")
+    for f in sorted(m.funcs.values(), key=lambda x: x.key):
+        if f.name != "nll_grad_batch" or f.cls is None:
+            continue
+        integ = {}
+        for st in walk_local(f.node):
+            if isinstance(st, ast.Assign) and isinstance(st.targets[0], ast.Tuple) and isinstance(st.value, ast.Call) and norm_text(st.value.func).startswith("sum_gradient") and st.value.args:
+                first = st.targets[0].elts[0]
+                if isinstance(first, ast.Name) and first.id.startswith("int_"):
+                    integ[first.id] = norm_text(st.value.args[0])
+        vmap = {}
+        for st in walk_local(f.node):
+            if isinstance(st, ast.Assign) and isinstance(st.targets[0], ast.Tuple) and isinstance(st.value, ast.Tuple):
+                for t, v in zip(st.targets[0].elts, st.value.elts):
+                    if isinstance(t, ast.Name) and isinstance(v, ast.Call) and v.args and isinstance(v.args[0], ast.Name) and v.args[0].id in integ:
+                        vmap[t.id] = v.args[0].id
+        prob = m.funcs.get(f.qual + ".prob")
+        if prob is None or not integ or not vmap:
+            continue
+        ret = [r for r in walk_local(prob.node) if isinstance(r, ast.Return)][0].value
+        terms = []
+
+        def split(e):
+            if isinstance(e, ast.BinOp) and isinstance(e.op, ast.Add):
+                split(e.left)
+                split(e.right)
+            else:
+                terms.append(e)
+
+        split(ret)
+        xname = prob.params[0]
+        for t in terms:
+            dens = [x.id for x in ast.walk(t) if isinstance(x, ast.Name) and x.id in vmap]
+            if len(dens) != 1:
+                continue
+            want = integ[vmap[dens[0]]]
+            per_event = sorted({norm_text(c.func) for c in ast.walk(t) if isinstance(c, ast.Call) and any(isinstance(a, ast.Name) and a.id == xname for a in c.args)})
+            n += 1
+            ok = per_event == [want]
+            chk.instance("E-norm", "%s: component / %s evaluates %s per event; %s is the integral of `%s`: %s" % (f.key, dens[0], per_event, vmap[dens[0]], want, ok))
+            if not ok:
+                chk.violation("E-norm", f.key, "component:%s" % dens[0], "the component divided by %s evaluates %s for each event, but %s integrates `%s` over the phase-space sample: the mixture is not normalised (e.g. the efficiency is applied to data events only)" % (dens[0], per_event, vmap[dens[0]], want), file="tf_pwa/model/cfit.py", line=prob.lineno)
+    if n < 4:
+        raise AnalysisError("fewer than 4 mixture components found in the cfit nll_grad_batch functions")
+
+
+def clause_f(repo, chk):
+    """cfit likelihoods are built on the data sample only: the FCN factory must drop the side-band sample for
+    exactly the models the model factory builds as cfit"""
+    chk.rule("F-cfit", "ConfigLoader.get_fcn omits bg= for the same set of models that ConfigLoader._get_model builds in its cfit branch (same config predicate, or an isinstance test that covers every class constructed there)")
+    LOADER = "tf_pwa/config_loader/config_loader.py"
+    gm = repo.fn(LOADER + "::ConfigLoader._get_model")
+    gf = repo.fn(LOADER + "::ConfigLoader.get_fcn")
+    cfit_classes = set()
+    for st in walk_local(gm.node):
+        if isinstance(st, ast.If) and norm_text(st.test) in ("model_name == 'cfit'", "'cfit' == model_name"):
+            for x in [y for b in st.body for y in ast.walk(b)]:
+                if isinstance(x, ast.Call) and isinstance(x.func, ast.Name) and x.func.id[:1].isupper() and x.func.id.lower().startswith("model"):
+                    cfit_classes.add(x.func.id)
+    if len(cfit_classes) < 3:
+        raise AnalysisError("_get_model: cfit branch / its model classes not found (%s)" % sorted(cfit_classes))
+    sel = None
+    for st in walk_local(gf.node):
+        if isinstance(st, ast.If):
+            def fcn_calls(stmts):
+                return [x for b in stmts for x in ast.walk(b) if isinstance(x, ast.Call) and isinstance(x.func, ast.Name) and x.func.id == "FCN"]
+            a, b = fcn_calls(st.body), fcn_calls(st.orelse)
+            if a and b:
+                a_bg = any(k.arg == "bg" for c in a for k in c.keywords)
+                b_bg = any(k.arg == "bg" for c in b for k in c.keywords)
+                if a_bg != b_bg:
+                    sel = (st, a_bg)
+    if sel is None:
+        raise AnalysisError("get_fcn: branch that builds the FCN with / without bg not found")
+    st, body_has_bg = sel
+    t = st.test
+    txt = norm_text(t)
+    ok = False
+    why = txt
+    if "'cfit'" in txt and ".get('model'" in txt and isinstance(t, ast.Compare) and isinstance(t.ops[0], (ast.Eq, ast.NotEq)):
+        ok = (isinstance(t.ops[0], ast.Eq)) != body_has_bg
+    elif isinstance(t, ast.Call) and isinstance(t.func, ast.Name) and t.func.id == "isinstance" and len(t.args) == 2:
+        names = [e.id for e in (t.args[1].elts if isinstance(t.args[1], ast.Tuple) else [t.args[1]]) if isinstance(e, ast.Name)]
+        covered = set()
+        for cname in cfit_classes:
+            c = repo.resolve_name(gm.mod, cname)
+            mro = {k.name for k in c.mro} if c is not None and hasattr(c, "mro") else {cname}
+            if mro & set(names):
+                covered.add(cname)
+        ok = covered == cfit_classes and not body_has_bg
+        why = "isinstance(..., %s) covers %s of %s" % (names, sorted(covered), sorted(cfit_classes))
+    chk.instance("F-cfit", "get_fcn drops bg under `%s`; _get_model builds %s in its cfit branch: %s" % (txt, sorted(cfit_classes), ok))
+    if not ok:
+        chk.violation("F-cfit", gf.key, "predicate", "the FCN factory decides with `%s` whether the side-band sample is merged into the data, but the model factory builds %s for `model: cfit` (%s): for a class the predicate misses, side-band events with negative weights enter the cfit likelihood" % (txt, sorted(cfit_classes), why), file=LOADER, line=st.lineno)
+
+
 def run(repo, chk, tier):
+    clause_f(repo, chk)
+    clause_e(repo, chk)
     clause_d(repo, chk)
     clause_a(repo, chk)
     clause_b(repo, chk)
